@@ -2,7 +2,11 @@
      <prestamp 0|1> <override 0|1> <cmax> <k1> <k2> <r1> <r2> [<later> ...]
    k1 / k2: number of KEEPALIVEs the reader sends while the query / the switch is unanswered
    reaction  r ::= R:<cb>:<mb>:<st> | E:<st> | W:<typ> | O | G | N
-   later     l ::= Q<typ>:<hexpayload or empty> | A
+   later     l ::= Q<typ>:<hexpayload or empty>    a request is written
+                 | A                               a KEEPALIVE is acknowledged
+                 | RS | RX:<st> | RE:<st> | RW:<typ> | RN
+                                                   the answer the caller of the last request gets: success, status st
+                                                   in the expected response / in an ERROR_MESSAGE, wrong type, none
    answer:   <proceeds|fails> <version> <neg frames> <later frames>
    frames ::= - | f,f,...   with f = <ver>:<typ>:<hex payload> *)
 open Model
@@ -29,11 +33,19 @@ let reaction s =
   | _ -> failwith ("bad reaction " ^ s)
 
 let later s =
-  if s = "A" then Ack
+  if s = "A" then PKeepAlive
+  else if s = "RS" then PAnswer AnsSuccess
+  else if s = "RN" then PAnswer AnsNone
+  else if String.length s > 1 && s.[0] = 'R' then
+    (match String.split_on_char ':' s with
+     | ["RX"; st] -> PAnswer (AnsStatus (false, ni st))
+     | ["RE"; st] -> PAnswer (AnsStatus (true, ni st))
+     | ["RW"; t] -> PAnswer (AnsWrongType (ni t))
+     | _ -> failwith ("bad later " ^ s))
   else if String.length s > 1 && s.[0] = 'Q' then
     (match String.split_on_char ':' (String.sub s 1 (String.length s - 1)) with
-     | [t; hex] -> Request (ni t, bytes_of_hex hex)
-     | [t] -> Request (ni t, [])
+     | [t; hex] -> PRequest (ni t, bytes_of_hex hex)
+     | [t] -> PRequest (ni t, [])
      | _ -> failwith ("bad later " ^ s))
   else failwith ("bad later " ^ s)
 
@@ -52,8 +64,9 @@ let () =
           | ps :: ov :: cmax :: k1 :: k2 :: r1 :: r2 :: ls ->
             let cfg = { prestamp = (ps = "1"); writer_overrides = (ov = "1") } in
             let rec nat_of_int i = if i <= 0 then O else S (nat_of_int (i - 1)) in
-            let (r, lf) = session_ka cfg (ni cmax) (nat_of_int (int_of_string k1)) (nat_of_int (int_of_string k2))
+            let (r, ps) = session_post cfg (ni cmax) (nat_of_int (int_of_string k1)) (nat_of_int (int_of_string k2))
                 (reaction r1) (reaction r2) (List.map later ls) in
+            let lf = ps.p_out in
             Printf.printf "%s %d %s %s\n"
               (match r.n_outcome with Proceeds -> "proceeds" | Fails -> "fails")
               (int_of_n r.n_version) (show_frames r.n_frames) (show_frames lf)
